@@ -110,7 +110,7 @@ namespace
         cl_overflow("clause", "unrepresentable_size_must_throw"), cl_dealloc("clause", "deallocate(exactly_one_block_died)"), cl_verify("clause", "verify_pattern_intact"),
         cl_conserve("clause", "conservation_after_op"), cl_end("clause", "end_of_history(no_live_block,no_bad_free)"), cl_eq("clause", "operator==_iff_alignments_equal"),
         cl_vec("clause", "vector_step_audit"), cl_pred("clause", "predicate_evaluations(is_aligned,get_alignment_offset)"), cl_ls("clause", "default_allocator_load_store_aligned"),
-        cl_dflt("clause", "default_alignment_static");
+        cl_dflt("clause", "default_alignment_static"), cl_pred_fresh("clause", "is_aligned_asked_directly_on_allocate's_result");
     Counter p_spurious("info", "spurious_failure_without_heap_refusal"), p_fail_while_live("probe", "failure_fired_while_other_block_live"),
         p_vec_growth_fail("probe", "allocation_failed_inside_vector_growth"), p_stale_alias("probe", "new_block_reused_a_freed_address"),
         p_exact("probe", "block_aligned_to_Align_but_not_2Align"), p_big_align("probe", "allocation_with_Align_ge_1024"), p_faultfree("probe", "fault_free_runs"),
@@ -605,6 +605,16 @@ namespace
                     ++cl_alloc_ok;
                     if (op.n == 0)
                         ++ff_zero_unique;
+                    if (r.is_aligned_seen >= 0)
+                    {
+                        // the harness reads the address through a virtual call in another translation unit: nothing the allocator promised the optimizer reaches here
+                        int truth = ((uintptr_t)r.p % 16 == 0 ? 1 : 0) | ((uintptr_t)r.p % 32 == 0 ? 2 : 0) | ((uintptr_t)r.p % 64 == 0 ? 4 : 0);
+                        ++cl_pred_fresh;
+                        if (truth != r.is_aligned_seen)
+                            out.violate("C18/is_aligned", sim::fmt("is_aligned<sse2|avx|avx512f> asked on the pointer allocate(%llu) of aligned_allocator<%s,%zu> had just returned answered %d%d%d, the address +0x%llx says %d%d%d",
+                                                                   (unsigned long long)op.n, c.tname(), c.align(), r.is_aligned_seen & 1, (r.is_aligned_seen >> 1) & 1, (r.is_aligned_seen >> 2) & 1,
+                                                                   (unsigned long long)rel, truth & 1, (truth >> 1) & 1, (truth >> 2) & 1));
+                    }
                     if ((uintptr_t)r.p % c.align())
                         out.violate("C18/misaligned", sim::fmt("allocate(%llu) returned +0x%llx which is not a multiple of Align=%zu", (unsigned long long)op.n, (unsigned long long)rel, c.align()));
                     else if (((uintptr_t)r.p % (2 * c.align())) != 0)
